@@ -377,6 +377,14 @@ fn bytes_weight(bytes: &[u8]) -> u64 {
 // ------------------------------------------------------------------ A. round trip
 /// encode then decode `cell` (which denotes `bytes`); reports violations; returns the text
 fn roundtrip_case(base: &Xstate, c: Codec, cell: &Cell, bytes: &[u8], p: Pres, rep: &Reporter, l: &mut Local) -> Option<String> {
+    // every other case is preceded, on the same thread, by an encoder call that is rightly refused
+    // (12 bits are not a byte string): what a refused call leaves behind must not reach the next one
+    if l.cases % 2 == 1 {
+        let mut ys = base.clone();
+        let junk = Cell::from(Bitstr::from(vec![0x41u8, 0x30, 0x77]).substr(3, 15).expect("substr"));
+        let _ = ys.push_data(junk);
+        let _ = step(&mut ys, c.enc());
+    }
     let mut xs = base.clone();
     xs.push_data(cell.clone()).expect("push");
     l.evals += 1;
@@ -758,7 +766,30 @@ pub fn run(cfg: &Cfg) -> i32 {
 
     // ---- A + B: byte strings
     let maxlen = if cfg.quick() { 16 } else { 40 };
-    let longer = structured(maxlen, cfg.seed);
+    let mut longer = structured(maxlen, cfg.seed);
+    // long operands: around the sizes at which an implementation might switch to working in pieces
+    for n in [31usize, 32, 33, 47, 48, 49, 50, 63, 64, 65, 95, 96, 97, 100, 127, 128, 129, 255, 256, 257] {
+        longer.push((0..n).map(|i| (i as u8).wrapping_mul(37).wrapping_add(11)).collect());
+        longer.push((0..n).map(|i| b"Hello, World! xeh"[i % 17]).collect());
+    }
+    // 4-byte groups whose zero85 digits end in 1..4 times the digit 84 (written `#`, which is also the padding
+    // mark), alone and followed by 1..3 more bytes
+    for r in 1..=4u32 {
+        let p = 85u64.pow(r);
+        for k in [0u64, 1, 7, (u32::MAX as u64 - (p - 1)) / p] {
+            let v = (p - 1 + k * p) as u32;
+            for tail in [&[][..], &[7u8][..], &[1, 2][..], &[1, 2, 3][..]] {
+                let mut b = v.to_be_bytes().to_vec();
+                b.extend_from_slice(tail);
+                longer.push(b.clone());
+                let mut b2 = vec![3u8, 0x1c, 0x84, 0xb0];
+                b2.extend_from_slice(&b);
+                longer.push(b2);
+            }
+        }
+    }
+    longer.sort();
+    longer.dedup();
     let n_small = 1 + 256 + 65536;
     let n_all3 = if cfg.quick() { 0 } else { 1usize << 24 };
     let total = n_small + longer.len() + n_all3;
